@@ -54,6 +54,29 @@ pub fn gen(rng: &mut Rng, _index: u64) -> String {
                        else { format!("{} {} {}", op, proto::geom(&b), proto::geom(&a)) };
             }
         }
+        // a line string / ring with more vertices than any chunk size, probed on one particular segment
+        if rng.chance(1, 40) {
+            let n = long_count(rng).min(400);
+            let zz = zigzag(n, 2, 0, 0, rng.chance(1, 2));
+            let seg = rng.below(n as u64 - 1) as usize;
+            let (p, q) = (zz[seg], zz[seg + 1]);
+            let mid = Coord { x: (p.x + q.x) / 2.0, y: (p.y + q.y) / 2.0 };
+            let lsg = if rng.chance(1, 4) { Geometry::MultiLineString(MultiLineString(vec![LineString(zz.clone())])) } else { Geometry::LineString(LineString(zz.clone())) };
+            let probe = match rng.below(4) {
+                0 => Geometry::Point(Point(mid)),
+                // a short segment crossing only this segment of the zig-zag (perpendicular-ish, through its midpoint)
+                1 => Geometry::Line(Line::new(Coord { x: mid.x - 0.25, y: mid.y }, Coord { x: mid.x + 0.25, y: mid.y })),
+                2 => Geometry::Line(Line::new(Coord { x: mid.x, y: mid.y - 0.25 }, Coord { x: mid.x, y: mid.y + 0.25 })),
+                _ => Geometry::Point(Point(p)),
+            };
+            let op = *rng.pick(&["C02.pred", "C02.cpred", "C02.pos"]);
+            if op == "C02.pos" {
+                let pt = match &probe { Geometry::Point(p) => p.0, _ => mid };
+                return format!("C02.pos {} {}", proto::geom(&lsg), proto::coord(pt));
+            }
+            return if rng.chance(1, 2) { format!("{} {} {}", op, proto::geom(&lsg), proto::geom(&probe)) }
+                   else { format!("{} {} {}", op, proto::geom(&probe), proto::geom(&lsg)) };
+        }
         // a closed line string with redundant collinear vertices on its sides and a Line lying along one side, from
         // the middle of one edge across one or more vertices into the middle of a later edge (for every ring start
         // vertex): the two-pass truncation loop of `LineString: Contains<Line>` must wrap around the ring start
